@@ -540,7 +540,7 @@ void execDensity(const Plan &plan, const ExecOptions &opt, ExecResult &res) {
       // change demands without crossing zero (the documented restriction)
       Rng r(mix64(g.a.size() > 0 ? (uint64_t)g.a[0] : 1, 0xd3));
       for (int c = 0; c < n; ++c)
-        if (demand[c] > 0) demand[c] = std::max(1, (int)(demand[c] * r.real(0.5, 2.0)));
+        if (demand[c] > 0) demand[c] = (int)std::max(1.0, std::min(1073741824.0, demand[c] * r.real(0.5, 2.0)));
       leg.updateCellDemand(demand);
     } else {
       did = false;
